@@ -132,9 +132,11 @@ def attribute(chk, results, pid, exe, scen, flavour, workdir, max_confirm=6, als
             elif str(f["sig"]).startswith("timeout-"):
                 # a hang must repeat with five times the budget when the run is re-recorded alone; a run that was merely slow
                 # (loaded machine) is not a violation
-                if not confirm(exe, events, scen, f["p"], f["sig"], workdir, module=module, extra_args=["timeout=200"]):
-                    chk.cov["slow_runs_not_hangs"] = chk.cov.get("slow_runs_not_hangs", 0) + 1
-                    continue
+                if chk.cov.get("_hangs_confirmed", 0) < 3:
+                    if not confirm(exe, events, scen, f["p"], f["sig"], workdir, module=module, extra_args=["timeout=200"]):
+                        chk.cov["slow_runs_not_hangs"] = chk.cov.get("slow_runs_not_hangs", 0) + 1
+                        continue
+                    chk.cov["_hangs_confirmed"] = chk.cov.get("_hangs_confirmed", 0) + 1
             elif confirmed < max_confirm:
                 if not confirm(exe, events, scen, f["p"], f["sig"], workdir, module=module):
                     raise vlib.FrameworkError("rejection did not repeat when run %s was re-recorded alone: %s" % (rep["run"], text))
